@@ -1092,6 +1092,11 @@ static Error JitAllocatorImpl_shrink(JitAllocatorPrivateImpl* impl, JitAllocator
     return make_error(Error::kInvalidArgument);
   }
 
+  // Nothing would be kept - that is a release (JitAllocator::shrink() handles it), `mark_shrunk_area()` needs a kept part.
+  if (ASMJIT_UNLIKELY(new_size == 0)) {
+    return make_error(Error::kInvalidArgument);
+  }
+
   uint32_t area_shrunk_size = pool->area_size_from_byte_size(new_size);
 
   if (ASMJIT_UNLIKELY(area_shrunk_size > area_prev_size)) {
